@@ -88,6 +88,30 @@ def deriv_work(payload):
                 res.violation("hessian:matrix|%s|%s" % (model, _kind(names[i])), "%s/%s batch=%r: H[%s,%s] = %r, second derivative of the reported NLL = %r" % (model, scen, batch, names[i], names[j], float(h[i, j]) if h.shape == H_ref.shape else None, float(H_ref[i, j])), case)
         except Exception as e:
             res.violation("hessian:exception|%s" % model, "%s/%s batch=%r: nll_grad_hessian raised %s: %s" % (model, scen, batch, type(e).__name__, str(e)[:200]), case)
+        # second, independent oracle for the gradient: Richardson-extrapolated central differences of the reported NLL
+        # along two directions (reverse-mode AD of the value is blind to a detached sub-expression inside the value)
+        if batch == payload["batches"][0]:
+            try:
+                g_lib = np.array([float(i) for i in fcn.nll_grad(x)[1]])
+                xs = np.array(x, dtype=float)
+                for idir, p_ in enumerate([np.ones(nv), np.cos(np.arange(nv) * 1.3 + 0.4)]):
+                    p_ = p_ / np.linalg.norm(p_)
+
+                    def cd(h):
+                        return (float(fcn(list(xs + h * p_))) - float(fcn(list(xs - h * p_)))) / (2 * h)
+
+                    h = 2e-3
+                    fd = (4 * cd(h / 2) - cd(h)) / 3
+                    fcn.vm.set_all(list(xs))
+                    ana = float(g_lib @ p_)
+                    res.case(nontrivial_key=(model, scen, point, groups, "fd", idir), outcome="fd")
+                    if abs(fd - ana) > 1e-5 * max(1.0, float(np.abs(g_lib).max())):
+                        res.violation("nll_grad:finite-difference|%s|%s" % (model, scen), "%s/%s: directional derivative of the reported NLL by central differences = %r, gradient . direction = %r" % (model, scen, fd, ana), dict(case, fd=idir))
+                    else:
+                        res.stat_max("fd_abs_dev_on_passing_cases", abs(fd - ana) / max(1.0, float(np.abs(g_lib).max())))
+            except Exception as e:
+                fcn.vm.set_all(list(x))
+                res.violation("nll_grad:fd-exception|%s" % model, "%s/%s: value path raised %s during finite differences: %s" % (model, scen, type(e).__name__, str(e)[:160]), case)
         # grad_hessp
         ps = [np.eye(nv)[0], np.eye(nv)[-1], np.ones(nv), np.linspace(-1, 1, nv)]
         for ip, p in enumerate(ps[: payload.get("n_p", 3)]):
@@ -105,6 +129,37 @@ def deriv_work(payload):
                     res.violation("hessp:%s|%s" % (tag, model), "%s/%s batch=%r: (H.p)[%s] = %r for p=%r, true product %r" % (model, scen, batch, names[k], float(hp[k]), p.tolist(), float(want[k])), dict(case, p=ip))
             except Exception as e:
                 res.violation("hessp:exception|%s" % model, "%s/%s batch=%r: grad_hessp raised %s: %s" % (model, scen, batch, type(e).__name__, str(e)[:200]), case)
+    # the same methods after a call at ANOTHER point (values cached by an earlier call must not leak into the next one)
+    try:
+        batch = payload["batches"][0]
+        y, g_ref, H_ref = ref
+        hs = max(1.0, float(np.abs(H_ref).max()))
+        xs = np.array(x, dtype=float)
+        x2 = list(xs + 0.05 * np.cos(np.arange(nv) * 0.9 + 0.2))
+        case = dict(case0, batch=batch, after_other_point=True)
+        res.case(nontrivial_key=(model, scen, point, groups, "after-other-point"), outcome="after-other-point")
+        fcn.nll_grad(x2)
+        v, g, h = fcn.nll_grad_hessian(list(xs))
+        g = np.array([float(i) for i in np.asarray(g).reshape(-1)])
+        if not relclose(v, y, 1e-9)[0] or not relclose(g, g_ref, 1e-8)[0] or not relclose(np.asarray(h, dtype=float), H_ref, 1e-7, hs)[0]:
+            res.violation("stale:hessian-after-grad|%s" % model, "%s/%s: nll_grad_hessian(x) after nll_grad at another point returns value %r (stand-alone NLL %r) / derivatives of another point" % (model, scen, float(v), y), case)
+        fcn.nll_grad_hessian(x2)
+        v, g = fcn.nll_grad(list(xs))
+        if not relclose(v, y, 1e-9)[0] or not relclose(np.array([float(i) for i in g]), g_ref, 1e-8)[0]:
+            res.violation("stale:grad-after-hessian|%s" % model, "%s/%s: nll_grad(x) after nll_grad_hessian at another point returns value %r (stand-alone NLL %r)" % (model, scen, float(v), y), case)
+        fcn.nll_grad(x2)
+        p_ = np.linspace(-1, 1, nv)
+        g, hp = fcn.grad_hessp(list(xs), p_, batch)
+        hp = np.array([float(i) for i in np.asarray(hp).reshape(-1)])
+        g = np.array([float(i) for i in np.asarray(g).reshape(-1)])
+        if not relclose(g, g_ref, 1e-8)[0] or not relclose(hp, H_ref @ p_, 1e-7, hs)[0]:
+            res.violation("stale:hessp-after-grad|%s" % model, "%s/%s: grad_hessp(x, p) after nll_grad at another point deviates from the derivatives at x" % (model, scen), case)
+        v2 = float(fcn(x2))
+        v1 = float(fcn(list(xs)))
+        if not relclose(v1, y, 1e-9)[0]:
+            res.violation("stale:value|%s" % model, "%s/%s: fcn(x) after fcn at another point = %r, before %r" % (model, scen, v1, y), case)
+    except Exception as e:
+        res.violation("stale:exception|%s" % model, "%s/%s: %s: %s" % (model, scen, type(e).__name__, str(e)[:200]), dict(case0, after_other_point=True))
     res.sample({"part": "deriv", "model": model, "scenario": scen, "free_parameters": names, "batches": payload["batches"]}, limit=1)
     return res.done()
 
@@ -263,7 +318,7 @@ def run(tier, seed, only=None):
         rule="models x floating/constraint scenarios %s x batch sizes x parameter points x direction vectors: nll_grad, nll_grad_hessian, grad_hessp against "
              "AD of the reported value; bound kinds %s x {exact quadratic, real NLL} x 2 points for the three transformation wrappers. distinct = (model, scenario, point, batch)"
              % (list(SCEN), list(BOUND_SETS)),
-        assumptions=["trusted base: TensorFlow reverse-mode autodiff applied to the value path fcn(x); mpmath numerical differentiation of the transform formulas",
+        assumptions=["trusted base: TensorFlow reverse-mode autodiff applied to the value path fcn(x), cross-checked by Richardson-extrapolated central differences of fcn(x) along two directions (tolerance 1e-5 of the largest gradient component); mpmath numerical differentiation of the transform formulas",
                      "interior parameter points only; cached_int / cached_amp with fixed line-shape parameters only (as the statement says)",
                      "tolerances 1e-8 (gradient) and 1e-7 (second derivatives) relative to the largest entry"],
     )
